@@ -3,6 +3,7 @@ package checks
 import (
 	"errors"
 	"fmt"
+	"strings"
 	"time"
 
 	"github.com/influxdata/influxql"
@@ -438,6 +439,104 @@ func init() {
 			return fmt.Sprint(e, tr, err, cl.String())
 		}},
 	)
+}
+
+// seqSteps are the steps of a random walk over a statement and the statements
+// derived from it: each step either queries or rewrites the current statement,
+// or replaces it by a statement derived from it.
+var seqSteps = []struct {
+	name string
+	run  func(cur *influxql.SelectStatement, rg *mon.Rng) (*influxql.SelectStatement, string)
+}{
+	{"GroupByInterval", func(s *influxql.SelectStatement, rg *mon.Rng) (*influxql.SelectStatement, string) {
+		d, err := s.GroupByInterval()
+		return s, fmt.Sprint(d, err)
+	}},
+	{"GroupByOffset", func(s *influxql.SelectStatement, rg *mon.Rng) (*influxql.SelectStatement, string) {
+		d, err := s.GroupByOffset()
+		return s, fmt.Sprint(d, err)
+	}},
+	{"ColumnNames", func(s *influxql.SelectStatement, rg *mon.Rng) (*influxql.SelectStatement, string) {
+		return s, fmt.Sprint(s.ColumnNames(), s.TimeFieldName())
+	}},
+	{"String", func(s *influxql.SelectStatement, rg *mon.Rng) (*influxql.SelectStatement, string) {
+		return s, s.String()
+	}},
+	{"RequiredPrivileges", func(s *influxql.SelectStatement, rg *mon.Rng) (*influxql.SelectStatement, string) {
+		p, err := s.RequiredPrivileges()
+		return s, fmt.Sprint(p, err)
+	}},
+	{"Normalize", func(s *influxql.SelectStatement, rg *mon.Rng) (*influxql.SelectStatement, string) {
+		d, tags := s.Dimensions.Normalize()
+		return s, fmt.Sprint(d, tags)
+	}},
+	{"Clone", func(s *influxql.SelectStatement, rg *mon.Rng) (*influxql.SelectStatement, string) {
+		return s.Clone(), ""
+	}},
+	{"Reduce", func(s *influxql.SelectStatement, rg *mon.Rng) (*influxql.SelectStatement, string) {
+		return s.Reduce(pickValuer(rg)), ""
+	}},
+	{"RewriteFields", func(s *influxql.SelectStatement, rg *mon.Rng) (*influxql.SelectStatement, string) {
+		m := randomMapper(rg, refNames(s))
+		switch rg.Intn(4) {
+		case 0:
+			m.tags = map[string][]string{} // a schema without tag keys
+		case 1:
+			m = &testMapper{} // an empty schema
+		}
+		o, err := s.RewriteFields(m)
+		if err != nil || o == nil {
+			return s, fmt.Sprint(err)
+		}
+		return o, ""
+	}},
+	{"RewriteTimeFields", func(s *influxql.SelectStatement, rg *mon.Rng) (*influxql.SelectStatement, string) {
+		s.RewriteTimeFields()
+		return s, ""
+	}},
+	{"RewriteDistinct", func(s *influxql.SelectStatement, rg *mon.Rng) (*influxql.SelectStatement, string) {
+		s.RewriteDistinct()
+		return s, ""
+	}},
+	{"RewriteRegexConditions", func(s *influxql.SelectStatement, rg *mon.Rng) (*influxql.SelectStatement, string) {
+		s.RewriteRegexConditions()
+		return s, ""
+	}},
+	{"SetTimeRange", func(s *influxql.SelectStatement, rg *mon.Rng) (*influxql.SelectStatement, string) {
+		err := s.SetTimeRange(fixedNow.Add(-time.Duration(rg.Intn(5)+1)*time.Hour), fixedNow)
+		return s, fmt.Sprint(err)
+	}},
+	{"ConditionExpr", func(s *influxql.SelectStatement, rg *mon.Rng) (*influxql.SelectStatement, string) {
+		e, tr, err := influxql.ConditionExpr(s.Condition, pickValuer(rg))
+		return s, fmt.Sprint(e, tr, err)
+	}},
+	{"Eval", func(s *influxql.SelectStatement, rg *mon.Rng) (*influxql.SelectStatement, string) {
+		ev := influxql.ValuerEval{Valuer: influxql.MultiValuer(influxql.MapValuer(randomPoint(rg, refNames(s))), &influxql.NowValuer{Now: fixedNow}), IntegerFloatDivision: true}
+		out := fmt.Sprint(ev.Eval(s.Condition))
+		for _, f := range s.Fields {
+			out += fmt.Sprint(ev.Eval(f.Expr))
+		}
+		return s, out
+	}},
+}
+
+func init() {
+	Ops = append(Ops, Op{"RandomSequence", true, func(st influxql.Statement, rg *mon.Rng) interface{} {
+		_, _, _, sel := stmtParts(st)
+		if sel == nil {
+			return nil
+		}
+		cur := sel
+		var out strings.Builder
+		for k, n := 0, 3+rg.Intn(5); k < n; k++ {
+			step := seqSteps[rg.Intn(len(seqSteps))]
+			out.WriteString(step.name + ";")
+			var res string
+			cur, res = step.run(cur, rg)
+			out.WriteString(res + "|")
+		}
+		return out.String()
+	}})
 }
 
 func pickValuer(rg *mon.Rng) influxql.Valuer {
